@@ -145,7 +145,7 @@ Definition apply_op (fixed : bool) (base : Divider) (fuel : nat) (sm : psim) (co
       | _ => (env_or_same s (RmvCall (Z.to_N a)), sm, (0, 0))
       end
     else if (code =? 10)%Z then (env_or_same s GracefulCall, sm, (0, 0))
-    else if (code =? 11)%Z then (env_or_same s StopCall, sm, (0, 0))
+    else if orb (code =? 11)%Z (code =? 12)%Z then (env_or_same s StopCall, sm, (0, 0))   (* Stop() / context cancellation *)
     else (s, sm, (0, 0)) in
   let '(s2, amb) := sched_run fixed (sim_dv base (prios s1) (ps_fault sm1)) fuel settle None (ps_amb sm1) s1 in
   (mkPsim s2 (ps_held sm1) (ps_next sm1) (ps_fault sm1) amb, res).
